@@ -71,7 +71,7 @@ IDENTITY = {'dcgettext': 1, 'dgettext': 1, 'gettext': 0}
 
 
 class Event(object):
-    __slots__ = ('kind', 'ins', 'name', 'args', 'res', 'addr', 'val', 'in_loop', 'depth', 'fn', 'field')
+    __slots__ = ('kind', 'ins', 'name', 'args', 'res', 'addr', 'val', 'in_loop', 'depth', 'fn', 'field', 'seq')
 
     def __init__(self, kind, ins, **kw):
         self.kind, self.ins = kind, ins
@@ -79,6 +79,7 @@ class Event(object):
         self.in_loop = False
         self.depth = 0
         self.fn = None
+        self.seq = 0
         for k, v in kw.items():
             setattr(self, k, v)
 
@@ -265,7 +266,7 @@ class Path(object):
 
 class Explorer(object):
     def __init__(self, modules, inline=(), max_paths=20000, max_visits=2, max_depth=4,
-                 mod_sets=None, call_hook=None, pure=()):
+                 mod_sets=None, call_hook=None, pure=(), record_loads=False):
         self.mods = modules
         self.funcs = {}
         for m in modules:
@@ -279,6 +280,7 @@ class Explorer(object):
         self.call_hook = call_hook
         self.pure = set(PURE) | set(pure)
         self.npaths = 0
+        self.record_loads = record_loads
 
     # -- value evaluation ----------------------------------------------------
     def string_of(self, val):
@@ -564,6 +566,8 @@ class Explorer(object):
                         st.env[ins.res] = st.mem[addr]
                     else:
                         st.env[ins.res] = ('ld', addr, self._version(st, addr))
+                    if self.record_loads and root_of(addr)[0] == 'call':
+                        st.events.append(Event('load', ins, addr=addr, in_loop=inloop, depth=depth, fn=fn.name, seq=len(st.assume)))
                 elif op == 'store':
                     val = self.ev(ins.ops[0], st)
                     addr = self.ev(ins.ops[1], st)
@@ -580,7 +584,7 @@ class Explorer(object):
                         if a != addr and a[0] != 'alloca' and self._vkey(a) == vkey:
                             del st.mem[a]
                     st.events.append(Event('store', ins, addr=addr, val=val, in_loop=inloop, field=key,
-                                           depth=depth, fn=fn.name))
+                                           depth=depth, fn=fn.name, seq=len(st.assume)))
                 elif op == 'getelementptr':
                     base = self.ev(ins.ops[0], st)
                     st.env[ins.res] = self._gep_value(base, ins.ops[0].ty, ins.ops[1:], st)
@@ -671,7 +675,7 @@ class Explorer(object):
                     return
                 elif op == 'ret':
                     rv = self.ev(ins.ops[0], st) if ins.ops else None
-                    st.events.append(Event('ret', ins, val=rv, depth=depth, fn=fn.name))
+                    st.events.append(Event('ret', ins, val=rv, depth=depth, fn=fn.name, seq=len(st.assume)))
                     self._end(out, st, 'ret', retval=rv, last_ins=ins)
                     return
                 elif op == 'unreachable':
@@ -751,7 +755,7 @@ class Explorer(object):
             return None
         st.uid[0] += 1
         uid = st.uid[0]
-        ev = Event('call', ins, name=name, args=args, in_loop=inloop, depth=depth, fn=fn.name)
+        ev = Event('call', ins, name=name, args=args, in_loop=inloop, depth=depth, fn=fn.name, seq=len(st.assume))
         if indirect is not None:
             ev.addr = indirect
         st.events.append(ev)
